@@ -49,7 +49,11 @@ func removeTwoNodeCycles(g *graph.DGraph) {
 			seen[pair{a, b}] = true
 		}
 	}
-	for e := range rev {
-		e.Reverse()
+	// reverse in edge list order: ranging over the set would make the order of adjacency lists,
+	// and eventually the layout, depend on map iteration order
+	for _, e := range g.Edges {
+		if rev[e] {
+			e.Reverse()
+		}
 	}
 }
